@@ -177,13 +177,14 @@ Qed.
 
 (* DISCONNECT *)
 Definition inv_disconnect (p : pkt) : Prop :=
-  getN (M F_fixed) p = ctor_fixed KDisconnect /\ valid_all [(M F_reasonCode, U8)] p /\ Forall up_ok (uprops p).
+  getN (M F_fixed) p = ctor_fixed KDisconnect /\ valid_all ((M F_reasonCode, U8) :: refs_of disconnect_map) p
+  /\ Forall up_ok (uprops p).
 
 Lemma inv_disconnect_step c p : inv_disconnect p -> applicable KDisconnect c = true -> call_ok c ->
   inv_disconnect (step c p).
 Proof.
-  intros [Hfx [Hv Hu]] Happ Hok. split_valid Hv.
-  destruct c; try discriminate Happ; cbn [step call_ok] in *; unfold inv_disconnect;
+  intros [Hfx [Hv Hu]] Happ Hok. unfold disconnect_map in *. split_valid Hv.
+  destruct c; try discriminate Happ; cbn [step call_ok] in *; unfold inv_disconnect, disconnect_map;
     (split; [exact Hfx|split; [|first [exact Hu | idtac]]]); try plain_setter.
   destruct Hok as [Hk' [Hlk Hlv]]; apply up_ok_app; assumption.
 Qed.
@@ -484,7 +485,8 @@ Proof.
     repeat split; vm_compute; reflexivity.
   - reflexivity.
   - reflexivity.
-  - split; [reflexivity|split; [|constructor]]. cbn [valid_all]. repeat split; vm_compute; reflexivity.
+  - split; [reflexivity|split; [|constructor]]. unfold disconnect_map. cbn [valid_all refs_of map eref ewt fst snd].
+    repeat split; vm_compute; reflexivity.
   - split; [reflexivity|split; [|constructor]]. unfold auth_map. cbn [valid_all refs_of map eref ewt fst snd].
     repeat split; vm_compute; reflexivity.
 Qed.
